@@ -25,6 +25,9 @@ pub enum Op {
     Hier { name: String, types: Vec<String>, reverse: bool, mlabel: Option<String>, mprop: Option<String>, ops: Vec<String> },
     DelNode(usize),
     DelEdge(usize),
+    /// delete the k-th relationship through Cypher (`MATCH ()-[r:T {i: v}]->() DELETE r`) when it
+    /// carries a unique integer property `i`; through the API otherwise
+    DelEdgeCy(usize),
 }
 
 fn props_vec_text(p: &[(String, PV)]) -> String {
@@ -55,6 +58,7 @@ pub fn render_op(op: &Op) -> String {
         ),
         Op::DelNode(h) => format!("DN~{}", h),
         Op::DelEdge(k) => format!("DE~{}", k),
+        Op::DelEdgeCy(k) => format!("DEC~{}", k),
     }
 }
 
@@ -236,6 +240,7 @@ pub fn parse_op(s: &str) -> Option<Op> {
         }),
         ["DN", h] => Some(Op::DelNode(h.parse().ok()?)),
         ["DE", k] => Some(Op::DelEdge(k.parse().ok()?)),
+        ["DEC", k] => Some(Op::DelEdgeCy(k.parse().ok()?)),
         _ => None,
     }
 }
@@ -375,7 +380,31 @@ pub fn apply(b: &mut Built, ops: &[Op]) {
                     value_features(v, &mut b.feat);
                 }
                 b.feat.rels += 1;
-                let eid = if method == "stub" && props.is_empty() {
+                // Cypher: both endpoints addressed by their unique integer property `uid`
+                let cy_edge = if method == "cy" && cypher_ident(ty) && props.iter().all(|(k, v)| cypher_ident(k) && cypher_literal(v).is_some()) {
+                    let uid = |id: NodeId| match b.store.node_properties_merged(id).get("uid") {
+                        Some(PV::Integer(u)) => Some(*u),
+                        _ => None,
+                    };
+                    match (uid(s), uid(t)) {
+                        (Some(us), Some(ut)) => {
+                            let ps: Vec<String> = props.iter().map(|(k, v)| format!("{}: {}", k, cypher_literal(v).unwrap())).collect();
+                            let pm = if ps.is_empty() { String::new() } else { format!(" {{{}}}", ps.join(", ")) };
+                            let q = format!("MATCH (a {{uid: {}}}), (b {{uid: {}}}) CREATE (a)-[:{}{}]->(b)", us, ut, ty, pm);
+                            let before: std::collections::HashSet<u64> = b.store.all_edges().iter().map(|e| e.id.as_u64()).collect();
+                            engine.execute_mut(&q, &mut b.store, "default").unwrap_or_else(|e| panic!("cypher {}: {:?}", q, e));
+                            let new: Vec<u64> = b.store.all_edges().iter().map(|e| e.id.as_u64()).filter(|i| !before.contains(i)).collect();
+                            if new.len() == 1 { Some(EdgeId::new(new[0])) } else { panic!("cypher {} created {} relationships", q, new.len()) }
+                        }
+                        _ => None,
+                    }
+                } else {
+                    None
+                };
+                let eid = if let Some(e) = cy_edge {
+                    b.executed.push("edge:cypher".into());
+                    e
+                } else if method == "stub" && props.is_empty() {
                     b.executed.push("edge:stub".into());
                     b.store.create_edge_stub(s, t, ty.as_str()).expect("edge stub")
                 } else if props.is_empty() {
@@ -469,6 +498,37 @@ pub fn apply(b: &mut Built, ops: &[Op]) {
                     for e in b.edges.iter_mut() {
                         if let Some(eid) = e {
                             if b.store.get_edge_endpoints(*eid).is_none() {
+                                *e = None;
+                            }
+                        }
+                    }
+                }
+            }
+            Op::DelEdgeCy(k) => {
+                if let Some(Some(eid)) = b.edges.get(*k).copied() {
+                    let ty = b.store.get_edge_type(eid).map(|t| t.as_str().to_string()).unwrap_or_default();
+                    let i = b.store.get_edge_properties(eid).and_then(|p| match p.get("i") {
+                        Some(PV::Integer(i)) => Some(*i),
+                        _ => None,
+                    });
+                    let mut done = false;
+                    if let (Some(i), true) = (i, cypher_ident(&ty)) {
+                        let q = format!("MATCH ()-[r:{} {{i: {}}}]->() DELETE r", ty, i);
+                        let _ = engine.execute_mut(&q, &mut b.store, "default");
+                        done = b.store.get_edge_endpoints(eid).is_none();
+                        if done {
+                            b.executed.push("deledge:cypher".into());
+                        }
+                    }
+                    if !done {
+                        b.executed.push("deledge".into());
+                        let _ = b.store.delete_edge(eid);
+                    }
+                    b.edges[*k] = None;
+                    // a Cypher DELETE matches by property: anything else it removed is gone too
+                    for e in b.edges.iter_mut() {
+                        if let Some(x) = e {
+                            if b.store.get_edge_endpoints(*x).is_none() {
                                 *e = None;
                             }
                         }
@@ -632,6 +692,78 @@ pub fn gen_program(r: &mut Rng, size: usize, deletes: bool) -> Vec<Op> {
             ops.push(Op::DelNode(r.usize(n_nodes)));
         } else if deletes && !compacted && !committed && n_edges > 0 {
             ops.push(Op::DelEdge(r.usize(n_edges)));
+        }
+    }
+    ops
+}
+
+/// "Size/threshold-dependent export paths": a larger graph (20-80 nodes, 60-200 relationships)
+/// built with cheap operations through all three relationship APIs (Cypher with properties,
+/// `create_edge`, `create_edge_stub`), then relationships and nodes deleted AFTER creation so that
+/// the id spaces have holes — the relationship count is pushed below a multiple of 64 while the
+/// highest ids stay alive — with optional compaction before and after the deletions.
+pub fn gen_big(r: &mut Rng) -> Vec<Op> {
+    let n = 20 + r.usize(61);
+    let mut ops = vec![];
+    for h in 0..n {
+        let method = r.pick(&["api", "stub", "cy", "row"]).to_string();
+        let mut labels = vec![r.pick(&["A", "B", "Person"]).to_string()];
+        if r.chance(1, 4) {
+            labels.push("Z".into());
+        }
+        let mut props: Vec<(String, PV)> = vec![("uid".into(), PV::Integer(h as i64))];
+        if r.chance(1, 3) {
+            props.push(("name".into(), PV::String(r.pick(&["Alice", " padded ", "Zoë", "x y"]).to_string())));
+        }
+        if r.chance(1, 8) && method != "cy" {
+            props.push(("v".into(), PV::Vector(vec![1.0, f32::NAN])));
+        }
+        props.sort_by(|a, b| a.0.as_bytes().cmp(b.0.as_bytes()));
+        ops.push(Op::Node { method, labels, props });
+    }
+    if r.chance(1, 3) {
+        ops.push(Op::Compact);
+    }
+    // relationship count: mostly a little above a multiple of 64
+    let e = match r.usize(5) {
+        0 => 60 + r.usize(141),
+        1 => 128 + r.usize(13),
+        2 => 192 + r.usize(9),
+        _ => 64 + r.usize(13),
+    };
+    for i in 0..e {
+        let method = r.pick(&["cy", "full", "stub"]).to_string();
+        let props: Vec<(String, PV)> = match method.as_str() {
+            "cy" => vec![("i".into(), PV::Integer(i as i64)), ("w".into(), PV::Float(*r.pick(&[0.5, 1.5, -2.25])))],
+            "full" if r.chance(1, 2) => vec![("i".into(), PV::Integer(i as i64)), ("s".into(), PV::String(r.pick(&[" a ", "é", "t"]).to_string()))],
+            _ => vec![],
+        };
+        ops.push(Op::Edge { method, src: r.usize(n), tgt: r.usize(n), ty: r.pick(&["R", "KNOWS", "LINK"]).to_string(), props });
+    }
+    if r.chance(1, 2) {
+        ops.push(Op::Compact);
+    }
+    // deletions: enough to push the live count below the 64-multiple under the highest id,
+    // taken from everywhere but the top few ids
+    let need = (e % 64) + 1 + r.usize(6);
+    let top = e.saturating_sub(3).max(1);
+    let mut seen = std::collections::HashSet::new();
+    for _ in 0..need.min(top) {
+        let k = r.usize(top);
+        if seen.insert(k) {
+            ops.push(if r.chance(1, 2) { Op::DelEdgeCy(k) } else { Op::DelEdge(k) });
+        }
+    }
+    for _ in 0..r.usize(4) {
+        ops.push(Op::DelNode(r.usize(n)));
+    }
+    if r.chance(1, 2) {
+        ops.push(Op::Compact);
+    }
+    // sometimes a few more relationships afterwards (they re-use freed ids)
+    if r.chance(1, 4) {
+        for _ in 0..1 + r.usize(4) {
+            ops.push(Op::Edge { method: r.pick(&["full", "stub"]).to_string(), src: r.usize(n), tgt: r.usize(n), ty: "R".into(), props: vec![] });
         }
     }
     ops
